@@ -20,16 +20,25 @@ RULE = ("the complete value-category tables (get / pair get / forward / forward_
         "tuple_cat element transfer / pair assignment / element transfer of the pair and tuple constructors, make_pair, make_tuple, forward_as_tuple), every pair of pairs and of 2- and 3-tuples over {0,1,2}, all "
         "tuple_cat shapes up to 3 operands of arity <= 3, and inplace_function histories over 2 wrappers x 3 targets x 4 "
         "target palettes: exhaustive to depth 2 over the full operation alphabet (50 operations for 2 wrappers, incl. assignment / construction from a null function pointer), to depth 4 over a 16-operation core alphabet and to depth 5 over a 10-operation alphabet with self swap / self assignment, "
-        "plus seeded random histories up to depth 14 (thorough: up to 4 wrappers, depths 3 / 5 / 6, more random); every history is "
-        "followed by probes (bool and two calls per wrapper). non-trivial = distinct case line whose impl leg starts "
+        "plus seeded random histories up to depth 14 (thorough: up to 4 wrappers, depths 3 / 5 / 6, more random); histories over "
+        "capacity-32 wrappers mixed with persistent capacity-16 wrappers (ipfx: converting constructors from a live source, as "
+        "constructor and as the parameter of operator=): exhaustive to depth 2 (thorough: 3) over every operation the types allow "
+        "for 1 + 1 wrappers x 4 palettes, every conversion followed by every operation and a second conversion, random to depth 12 "
+        "with up to 2 + 2 wrappers; every history is "
+        "followed by probes (bool and two calls per wrapper). The language rules of the model (op lang) over their whole finite "
+        "domain against the compiler. non-trivial = distinct case line whose impl leg starts "
         "with ok / ill")
 
 TRUSTED_BASE = ["reference leg: libstdc++ 12 std::pair/tuple/function/invoke/bind_front/not_fn/reference_wrapper on the same inputs; "
                 "forward_like and function_ref have no libstdc++ 12 counterpart (reference = formula from [forward] resp. the Coq spec leg)",
                 "the harness' instrumented callables (forwarding-reference operator() on all four ref-qualifiers) report "
-                "categories through template deduction, i.e. the C++ language"]
+                "categories through template deduction, i.e. the C++ language",
+                "op lang: g++ 12 is the reference for the language rules (binding, static_cast, deduction, overload choice) the "
+                "model's value-category part is written with"]
 ASSUMPTIONS = ["forwarding is largely the C++ language (overload resolution, template deduction, reference collapsing): "
-               "the model captures the library's choices (declared return types, etl::move / etl::forward / static_cast / plain use)"]
+               "the model captures the library's choices (declared return types, etl::move / etl::forward / static_cast / plain use) "
+               "and evaluates them with language rules that are compared with the compiler on every run (op lang), not derived from "
+               "a formal semantics of C++"]
 
 # op alphabet of the inplace_function histories (opcode, a, b) -- see c20_ipf.inc
 def full_alphabet(nw):
